@@ -328,7 +328,7 @@ func init() {
 	registry["C13"] = func(c *Ctx) *orch.Outcome {
 		return runModelCheck(c, modelSpec{Level: "exploration",
 			Rule: "one evaluation = one conversion from a funded address into a destination of every class (pFCT, PEG, small-cap assets, ordinary assets), submitted at activation-3 … activation+2 of every activation; the admission rule of the statement decides executed / rejected(-2,-3,-4,-5) / dropped, compared with balances and recorded status. Distinct non-trivial = (verdict code, era) classes observed for conversions.",
-			Profiles: func(c *Ctx) []modelParams { return featProfiles(c, 3, 64, 0, "c13", "avg-unavailable") },
+			Profiles: func(c *Ctx) []modelParams { return featProfiles(c, 3, 64, 0, "c13", "avg-unavailable", "c16") },
 			NonTrivial: func(rs []*orch.Result) (int64, map[string]interface{}) {
 				k := distinctWithPrefix(rs, "outcome_classes", "conversion")
 				ex := sumCounters(rs, "batch_outcomes_checked")
